@@ -215,6 +215,66 @@ Theorem dispatch args :
   run (B"t.pnsfm") args = sh_u2 (fun s n => val_of_R enc_time (unwrap (from_num_seconds_from_midnight_opt s n))) args.
 Proof. repeat match goal with |- _ /\ _ => split end; reflexivity. Qed.
 
+(** * NaiveDate::and_hms* : the checked forms and their deprecated panicking twins.  The date is kept as it
+      is, the time is the constructor's reading; the panicking form panics exactly where the checked form
+      answers None *)
+Definition sh_d3 (f : Z -> Z -> Z -> Z -> val) (args : list val) : val :=
+  match args with
+  | [dv; a; b; c] => match DateTime.dec_date dv, arg_u32 a, arg_u32 b, arg_u32 c with
+                     | Some d, Some x, Some y, Some z => f d x y z | _, _, _, _ => VBad end
+  | _ => VBad end.
+Definition sh_d4 (f : Z -> Z -> Z -> Z -> Z -> val) (args : list val) : val :=
+  match args with
+  | [dv; a; b; c; e] => match DateTime.dec_date dv, arg_u32 a, arg_u32 b, arg_u32 c, arg_u32 e with
+                        | Some d, Some x, Some y, Some z, Some w => f d x y z w | _, _, _, _, _ => VBad end
+  | _ => VBad end.
+Theorem dispatch_and_hms args :
+  run (B"ndt.phms") args = sh_d3 (fun d h m s => val_of_R DateTime.enc_ndt (nd_and_hms d h m s)) args /\
+  run (B"ndt.phms_milli") args = sh_d4 (fun d h m s x => val_of_R DateTime.enc_ndt (nd_and_hms_milli d h m s x)) args /\
+  run (B"ndt.phms_micro") args = sh_d4 (fun d h m s x => val_of_R DateTime.enc_ndt (nd_and_hms_micro d h m s x)) args /\
+  run (B"ndt.phms_nano") args = sh_d4 (fun d h m s x => val_of_R DateTime.enc_ndt (nd_and_hms_nano d h m s x)) args.
+Proof. repeat match goal with |- _ /\ _ => split end; reflexivity. Qed.
+
+Definition and_res (d : Z) (c : bool) (s n : Z) : R DateTime.ndt :=
+  if c then Val (DateTime.mk_ndt d (mk_time s n)) else Panic.
+Definition and_res_opt (d : Z) (c : bool) (s n : Z) : R (option DateTime.ndt) :=
+  Val (if c then Some (DateTime.mk_ndt d (mk_time s n)) else None).
+Theorem nd_and_hms_spec d h m s : in_u32 h = true -> in_u32 m = true -> in_u32 s = true ->
+  nd_and_hms_opt d h m s = and_res_opt d (hms_ok h m s) (secs_of_hms h m s) 0 /\
+  nd_and_hms d h m s = and_res d (hms_ok h m s) (secs_of_hms h m s) 0.
+Proof.
+  intros. unfold nd_and_hms, nd_and_hms_opt, nd_and_time_opt, and_res, and_res_opt.
+  rewrite from_hms_opt_spec by assumption. destruct (hms_ok h m s); split; reflexivity.
+Qed.
+Theorem nd_and_hms_milli_spec d h m s x : in_u32 h = true -> in_u32 m = true -> in_u32 s = true -> in_u32 x = true ->
+  nd_and_hms_milli_opt d h m s x = and_res_opt d (accept_hms_nano h m s (x * 1000000)) (secs_of_hms h m s) (x * 1000000) /\
+  nd_and_hms_milli d h m s x = and_res d (accept_hms_nano h m s (x * 1000000)) (secs_of_hms h m s) (x * 1000000).
+Proof.
+  intros. unfold nd_and_hms_milli, nd_and_hms_milli_opt, nd_and_time_opt, and_res, and_res_opt.
+  rewrite from_hms_milli_opt_spec by assumption. destruct (accept_hms_nano h m s (x * 1000000)); split; reflexivity.
+Qed.
+Theorem nd_and_hms_micro_spec d h m s x : in_u32 h = true -> in_u32 m = true -> in_u32 s = true -> in_u32 x = true ->
+  nd_and_hms_micro_opt d h m s x = and_res_opt d (accept_hms_nano h m s (x * 1000)) (secs_of_hms h m s) (x * 1000) /\
+  nd_and_hms_micro d h m s x = and_res d (accept_hms_nano h m s (x * 1000)) (secs_of_hms h m s) (x * 1000).
+Proof.
+  intros. unfold nd_and_hms_micro, nd_and_hms_micro_opt, nd_and_time_opt, and_res, and_res_opt.
+  rewrite from_hms_micro_opt_spec by assumption. destruct (accept_hms_nano h m s (x * 1000)); split; reflexivity.
+Qed.
+Theorem nd_and_hms_nano_spec d h m s x : in_u32 h = true -> in_u32 m = true -> in_u32 s = true -> in_u32 x = true ->
+  nd_and_hms_nano_opt d h m s x = and_res_opt d (accept_hms_nano h m s x) (secs_of_hms h m s) x /\
+  nd_and_hms_nano d h m s x = and_res d (accept_hms_nano h m s x) (secs_of_hms h m s) x.
+Proof.
+  intros. unfold nd_and_hms_nano, nd_and_hms_nano_opt, nd_and_time_opt, and_res, and_res_opt.
+  rewrite from_hms_nano_opt_spec by assumption. destruct (accept_hms_nano h m s x); split; reflexivity.
+Qed.
+Lemma and_hms_inhabited :
+  nd_and_hms Proofs.C07Ndt.leap_date 23 59 59 = Val (DateTime.mk_ndt Proofs.C07Ndt.leap_date (mk_time 86399 0)) /\
+  nd_and_hms Proofs.C07Ndt.leap_date 24 0 0 = Panic /\
+  nd_and_hms_milli Proofs.C07Ndt.leap_date 23 59 59 1999 =
+    Val (DateTime.mk_ndt Proofs.C07Ndt.leap_date (mk_time 86399 1999000000)) /\
+  nd_and_hms_milli Proofs.C07Ndt.leap_date 23 59 58 1000 = Panic.
+Proof. repeat split; reflexivity. Qed.
+
 Lemma ops_inhabited :
   tvalid (DateTime.nd_time (DateTime.mk_ndt Proofs.C07Ndt.leap_date (mk_time 86399 1500000000))) /\
   unwrap_r (from_hms_opt 24 0 0) = Panic /\ unwrap_r (from_hms_opt 23 59 59) = Val (mk_time 86399 0) /\
